@@ -575,6 +575,11 @@ where
     /// ```
     ///
     pub fn add_event(&mut self, event: impl Into<A::EventSet>, time: SimTime) {
+        assert!(
+            time >= SimTime::now(),
+            "cannot schedule an event at {time}, which is earlier than the current simulation time {}",
+            SimTime::now()
+        );
         self.future_event_set.add(time, event);
         self.event_id += 1;
     }
